@@ -124,7 +124,7 @@ UNI_CHARS = ['é', 'É', 'ß', 'α', 'б', '中', '\u0660', '²', '½', '\x0b', 
              '\xa0', '\u1680', '\u2003', '\u2028', '\u2029', '\u202f', '\u3000', '\u200b', '\u0301', '\ufeff', '\xad',
              '\ud800', '\udbff', '\udc00', '\udfff', '\U0001f602', '\U0010ffff', '\x01', '\x08', '\x1b', '\x80',
              # boundaries of the encodings / tables an implementation might special-case
-             '\x7e', '\xff', '\u0100', '\u07ff', '\u0800', '\ud7ff', '\ue000', '\uffff', '\U00010000', '\u2060', '\u200d', '\u200e']
+             'e\u0301', 'a\u0300', 'n\u0303', '\u1100\u1161', 'A\u030a', '\x7e', '\xff', '\u0100', '\u07ff', '\u0800', '\ud7ff', '\ue000', '\uffff', '\U00010000', '\u2060', '\u200d', '\u200e']
 UNI_CONTEXT = ['\\', '\\x', '\\item', '\\item ', '{', '}', '[', ']', '%', '\n', ' ', '$', 'a', '\\begin{a}', '\\end{a}',
                '\\\\', '\\textbf', '\\section', '\\cup', '\\left', '\\begin{itemize}', '\\end{itemize}', '1', '~']
 
@@ -153,7 +153,7 @@ def unicode_strings(rng, n):
 
 # names next to the names the reader, tokenizer or printer treat specially: prefixes, extensions, starred and
 # re-cased forms.  As command and environment names they are ordinary.
-SPECIAL_NAMES = ['item', 'end', 'begin', 'text', 'verbatim', 'lstlisting', 'Verbatim', 'verbatimtab', 'listing',
+SPECIAL_NAMES = ['item', 'end', 'begin', 'text', 'command', 'mycommand', 'renewcommand', 'providecommand', 'verbatim', 'lstlisting', 'Verbatim', 'verbatimtab', 'listing',
                  'equation', 'align*', 'math', 'displaymath', 'split', 'newcommand', 'def', 'section', 'textbf', 'label',
                  'cup', 'in', 'infty', 'noindent', 'left', 'big', 'tex', 'itemize']
 
@@ -180,7 +180,8 @@ def name_neighbour_docs():
             for t in ('\\begin{itemize}\\item a \\%s 0pt \\emph{b}\\item c \\%s{d} e\\end{itemize}',
                       '$x \\%s{ if \\emph{y} holds} [0,1)$', '\\%s{A}{B} t', '\\%s[x][y]{a}{b}[c]', '\\%s [x] {a}',
                       '\\%s', '\\begin{a}\\%s{u}\\end{a}', '{\\%s x}', '\\%s\n\n{a}', '\\begin{equation}\\%s[a]{b}\\end{equation}',
-                      '\\x{\\%s}{b}'):
+                      '\\x{\\%s}{b}', '\\%s{\\begin{center}x \\textbf{y}\\end{center}} tail',
+                      '\\begin{itemize}\\item \\%s{\\begin{a}u\\end{a}}\\end{itemize}'):
                 cases.append((t.replace('%s', n), ()))
         for t in ('\\begin{%s}\\x{a} $b$ \\end{%s}', '\\begin{%s}{ $ \\end{%s}', '\\begin{center}\\begin{%s}\\y{ \\end{%s}\\end{center}',
                   '\\begin{%s}[o]{p}q\\end{%s} r', '\\begin{%s}\\item a\\end{%s}'):
@@ -222,6 +223,11 @@ def blank_run_docs():
             out.append('\\begin{itemize}\\item' + run + '\\x' + run + '\\item p' + run + '\\end{itemize}')
             out.append('{' + run + '{a}' + run + '}' + run)
             out.append('\\begin{a}' + run + '\\end{a}')
+    # blank-only bodies of verbatim-like environments (one whitespace-only text leaf)
+    for name in ('verbatim', 'lstlisting', 'Verbatim'):
+        for body in ('\n', ' ', '\n\n', '\t \n', ' \n \n '):
+            out.append('\\begin{%s}%s\\end{%s}' % (name, body, name))
+            out.append('x\\begin{center}\\begin{%s}%s\\end{%s}y\\end{center}' % (name, body, name))
     return out
 
 
